@@ -47,6 +47,7 @@ tm = make(map[string]int64)
 pt = new(int64)
 pn = new(string)
 fz = func() { return }
+u = "héllo日本語x"
 st = make(struct { A []int64, B map[string]int64 })
 st2 = make(struct { S struct { A []int64 } })
 `)
@@ -132,6 +133,8 @@ var degenerateForms = []string{
 	"_t1 += [[1]]", "ts += [1, nil]", "c += [nil]", "c += nilslice", "_t1 += nilslice", "nilslice += [nil]", "tim.b = 1", "tim.b", "tim[\"b\"] = 1", "tim[1.5] = 1", "delete(tim, \"b\")", "tm.k.j = 1", "tm[nil] = 1",
 	"for k, w in x { delete(x, \"k\"); delete(x, \"l\"); delete(x, 3); k; w }", "for k, w in tm2 { delete(tm2, \"a\"); delete(tm2, \"b\"); y = w }", "for k in x { x[k + \"z\"] = 1 }",
 	"toString(nilptr)", "toInt(nilptr)", "len(nilptr)", "nilptr == nilptr", "nilptr in ptrs", "ptrs[0] = 1", "ptrs[0] = nilptr", "*ptrs[0]", "*ptrs[1] = 2\n*ptrs[1]",
+	"u[5]", "u[6]", "u[9]", "u[len(u) - 1]", "u[len(u)]", "for i = 0; i < len(u); i++ {\nu[i]\n}", "u[1:3]", "u[2:len(u)]", "u[0:100]", "u[7] = \"x\"\nu", "u[len(u)] = \"é\"\nu", "u[2] = \"語\"\nu[2]",
+	"for ch in u { ch }", "u * 3", "u + u[1]", "toRunes(u)[3]", "len(toRunes(u))", "u[-1]", "\"é\"[1]", "\"é\"[2]", "\"日本\"[5]", "\"日本\"[2:4]", "b[1] = \"日\"\nb[2]",
 	"tm[st] = 1", "x[f] = 1", "x[ch] = 1\nx[ch]", "x[pt] = 1", "x[m] = 1", "x[1.5] = 1\nx[1.5]", "x[nil] = 1\nx[nil]",
 	"x[c] = 1", "x[x] = 1", "delete(x, c)", "delete(x, x)", "delete(a)", "delete(c, 1)", "delete(v, 1)", "delete(nilmap, 1)", "nilmap[1] = 2", "nilmap.k = 2", "nilslice[0] = 1", "nilslice[0]", "nilptr.x", "nilptr.x = 1",
 	"close(v)", "close(a)", "close(ch)\nclose(ch)", "close(ch)\nch <- 1", "v <- 1", "a <- 1", "<-v", "<-a", "ch <- c", "ch <- v", "v, ok = <-v", "c, c = <-ch",
